@@ -27,6 +27,22 @@ CHECKS = {
             "Model = my reading of docs 5-1 + event_return.py predicates (None counts as processed for data hand-over and carries no flag); "
             "handlers are registered only through EventManager.register.",
             "DESIGN.md 3/C17"),
+    "C01": ("differential testing: CPython output trace vs reference GIR interpreter over Hypothesis-generated typed Python programs",
+            "Thousands of generated Python programs (typed grammar over the constructs the property lists) are executed by CPython and, "
+            "after lowering with the real frontend + event handlers + flattening, by a reference GIR interpreter; the sequences of values "
+            "passed to out(...) (which include the entry functions' return values) and the error/no-error outcome must agree. Failures are "
+            "bucketed by construct class; known lowering defects are stepped over by construct and kept as replay files.",
+            "Trusted base: harness/girsem.py, my executable reading of the documented GIR instruction meanings (validated by agreement with "
+            "CPython on the large majority of generated programs); run-time error classes are not compared.",
+            "DESIGN.md 3/C01"),
+    "C04": ("exhaustive enumeration + Hypothesis sampling of control-structure shapes in seven frontends; structural path walker vs lian's CFG",
+            "Every method body built from <= 3-4 control constructs (quick; 4-5 thorough) plus sampled bodies up to 9 constructs, in each of the "
+            "seven frontends, is analysed by lian (lang + P1); every statement sequence allowed by the GIR control constructs (all branch "
+            "decisions, loops entered 0/1/2 times) must be a path of the method's CFG: entry node, every consecutive pair an edge, exits reach "
+            "node -1, no foreign nodes.",
+            "Trusted base: harness/walker.py (structural semantics of GIR control constructs incl. per-language switch fall-through); exceptional "
+            "control flow is not generated; branch conditions are opaque so structural = concrete feasibility.",
+            "DESIGN.md 3/C04"),
 }
 
 NOT_YET = {}
